@@ -170,6 +170,29 @@ Section DeWt.
         split; [constructor; assumption | cbn [forallb]; rewrite Hj, Hjs; reflexivity].
     Qed.
 
+    Lemma de_seq_fields_good : forall fs l r, de_seq_fields rec fs l = Some r ->
+      Forall2 (fun f v => wt (fdesc f) v) fs r /\ forallb json_ok r = true.
+    Proof.
+      induction fs as [|f fs IH]; intros l r H; cbn [de_seq_fields] in H.
+      - destruct l; [|discriminate]. injection H as <-. split; [constructor | reflexivity].
+      - destruct l as [|j l].
+        + destruct (if fdefault f then default_of (fdesc f) else None) as [v|] eqn:Ev; [|discriminate].
+          destruct (de_seq_fields rec fs []) as [r'|] eqn:Er; [|discriminate]. injection H as <-.
+          destruct (IH [] r' Er) as [Hws Hjs].
+          assert (good (fdesc f) v) as [Hw Hj].
+          { destruct (fdefault f); [|discriminate]. unfold default_of in Ev. apply good_of_unbox.
+            destruct (unbox (fdesc f)); try discriminate; injection Ev as <-; split; try reflexivity; repeat constructor. }
+          split; [constructor; assumption | cbn [forallb]; rewrite Hj, Hjs; reflexivity].
+        + destruct (rec (fdesc f) j) as [v|] eqn:Ev; [|discriminate].
+          destruct (de_seq_fields rec fs l) as [r'|] eqn:Er; [|discriminate]. injection H as <-.
+          destruct (IH l r' Er) as [Hws Hjs]. destruct (Hrec _ _ _ Ev) as [Hw Hj].
+          split; [constructor; assumption | cbn [forallb]; rewrite Hj, Hjs; reflexivity].
+    Qed.
+
+    Lemma de_struct_seq_good fs l r : de_struct_seq rec fs l = Some r ->
+      Forall2 (fun f v => wt (fdesc f) v) fs r /\ forallb json_ok r = true.
+    Proof. unfold de_struct_seq. destruct (seq_ok fs); [apply de_seq_fields_good | discriminate]. Qed.
+
     Lemma de_payload_good sh j DF p :
       (forall fs kvs l, DF fs kvs = Some l ->
          Forall2 (fun f v => wt (fdesc f) v) fs l /\ forallb json_ok l = true) ->
@@ -181,7 +204,7 @@ Section DeWt.
         destruct (Hrec _ _ _ Ex) as [Hw Hj]. split; [exists v; split; [reflexivity | exact Hw]|].
         cbn [forallb]. rewrite Hj. reflexivity.
       - destruct j; try discriminate. apply (de_tuple_good ds l p H).
-      - destruct j; try discriminate. apply (HDF fs l p H).
+      - destruct j; try discriminate; [apply (de_struct_seq_good fs l p H) | apply (HDF fs l p H)].
     Qed.
 
     Lemma de_named_good f kvs v : de_named rec f kvs = Some v -> good (fdesc f) v.
@@ -244,9 +267,12 @@ Section DeWt.
     Proof.
       intros Hl H. destruct df as [fs|vs|d']; cbn [de_def] in H; [| |discriminate].
       - destruct j; try discriminate.
-        destruct (de_fields E rec fs l) as [r|] eqn:Er; cbn [option_map] in H; [|discriminate].
-        injection H as <-. destruct (de_fields_good _ _ _ Er) as [Hw Hj].
-        split; [eapply wt_struct; eassumption | exact Hj].
+        + destruct (de_struct_seq rec fs l) as [r|] eqn:Er; cbn [option_map] in H; [|discriminate].
+          injection H as <-. destruct (de_struct_seq_good _ _ _ Er) as [Hw Hj].
+          split; [eapply wt_struct; eassumption | exact Hj].
+        + destruct (de_fields E rec fs l) as [r|] eqn:Er; cbn [option_map] in H; [|discriminate].
+          injection H as <-. destruct (de_fields_good _ _ _ Er) as [Hw Hj].
+          split; [eapply wt_struct; eassumption | exact Hj].
       - destruct j; try discriminate.
         + destruct (assoc s vs) as [[| | |]|] eqn:Ea; try discriminate. injection H as <-.
           split; [eapply wt_enum_unit; eassumption | reflexivity].
